@@ -84,7 +84,7 @@ package safehtml
 
 //@ func TrustedResourceURLAppend(t TrustedResourceURL, s string) (r TrustedResourceURL, err error)
 //@   serves C13
-//@   ensures guard: isnil(err) == inlang(re_safeTrustedResourceURLPrefixPattern, t.str)
+//@   ensures guard: isnil(err) == (inlang(re_safeTrustedResourceURLPrefixPattern, t.str) && !inlang(re_urlDoubleDotSegmentPattern, s))
 //@   ensures layout: isnil(err) ==> seqeq(r.str, cat(t.str, encupto(false, s, len(s))))
 //@   ensures nodotdot: isnil(err) ==> !inlang(re_urlDoubleDotSegmentPattern, s)
 //@   ensures zero: !isnil(err) ==> len(r.str) == 0
